@@ -847,6 +847,8 @@ class DigitalWaveform(Generic[TDigitalState]):
 
         if timing is None:
             timing = Timing.empty
+        else:
+            self._validate_timing(timing)
         self._timing = timing
 
         self._signals = None
